@@ -668,15 +668,25 @@ def exec_history(hist, workdir, collect=None, light=False):
               tol = 1e-12 * R["condK"] * max(np.abs(R["amol"]).max(), 1e-300) + 1e-300
               if am.shape != R["amol"].shape or np.abs(am - R["amol"]).max() > max(tol, 1e-9 * np.abs(R["amol"]).max()):
                   V("fit:alpha_mol:mismatch", "step %d: max diff %.3g tol %.3g condK %.3g" % (step, np.abs(am - R["amol"]).max() if am.shape == R["amol"].shape else -1, tol, R["condK"]))
+              # backward error of K alpha_mol = y with the reference K and y: well conditioned
+              # whatever cond(K) is (the forward comparison above loosens with cond(K))
+              if am.shape == R["amol"].shape:
+                  res_m = R["K"].dot(am) - R["y"]
+                  sc_m = np.abs(R["K"]).sum(1).max() * np.abs(am).max() + np.abs(R["y"]).max()
+                  if np.abs(res_m).max() > 1e-9 * sc_m:
+                      V("fit:alpha_mol:normal-equations", "step %d: residual %.3g scale %.3g" % (step, np.abs(res_m).max(), sc_m))
               for ik, kern in enumerate(gp.kernels):
                   a = np.asarray(kern.alpha)
                   # backward error of (Kmm + eps I) alpha = Kmn alpha_mol  (x0^2 folded in)
-                  rhs = R["Kmn"][ik].dot(R["amol"]) * (1.0 if op["x"] is None else op["x"][0] ** 2)
+                  # (with the package's own alpha_mol: its deviation from the reference alpha_mol is
+                  # rounding amplified by cond(K) and is judged separately above)
+                  am_pkg = am if am.shape == R["amol"].shape else R["amol"]
+                  rhs = R["Kmn"][ik].dot(am_pkg) * (1.0 if op["x"] is None else op["x"][0] ** 2)
                   lhs = R["Kmms"][ik].dot(a)
                   # alpha is formed as ((Kmm+eps)^-1 Kmn) alpha_mol, so its backward error scales with
                   # |A| (|A^-1 Kmn| |alpha_mol|), which can exceed |A||alpha| through cancellation
                   x02 = 1.0 if op["x"] is None else op["x"][0] ** 2
-                  growth = (np.abs(R["Kimn_raw"][ik]).dot(np.abs(R["amol"]))).max() * x02
+                  growth = (np.abs(R["Kimn_raw"][ik]).dot(np.abs(am_pkg))).max() * x02
                   sc = np.abs(R["Kmms"][ik]).sum(1).max() * max(np.abs(a).max(), growth) + np.abs(rhs).max()
                   if a.shape != R["alphas"][ik].shape or np.abs(lhs - rhs).max() > 1e-9 * sc:
                       V("fit:kernel_alpha:normal-equations", "step %d kernel %d: residual %.3g scale %.3g" % (step, ik, np.abs(lhs - rhs).max() if a.shape == R["alphas"][ik].shape else -1, sc))
